@@ -412,7 +412,9 @@ inline std::string make_char_constant(
     const length_t type_length,
     const source_location& location)
 {
-    if(constant_value.size() > 1)
+    // type with `length != 1` is represented using `static_array_ref` even if
+    // the value has a single character
+    if((constant_value.size() > 1) || (type_length != 1))
     {
         return utils::make_string_constant(
             constant_value, type_length, location);
